@@ -70,3 +70,22 @@ func HarnessC04StumpUpdate() {
 	}
 	verifReach("C04.Update")
 }
+
+// HarnessC04Forest: garbage input to the forests' verify entry points on a reachable state:
+// no panic, every loop inside the unwinding bound.  which: 1 Pollard.Verify, 2 MapPollard.Verify,
+// 3 MapPollard.VerifyPartialProof (partial forest).
+func HarnessC04Forest() {
+	w := newWorld()
+	w.history("C04.history", false)
+	hs, tg, pf := c04Garbage()
+	rem := verifChoose("remember", 0, 1) == 1
+	switch verifParam("which", 1) {
+	case 1:
+		w.p.Verify(hs, Proof{Targets: tg, Proof: pf}, rem)
+	case 2:
+		w.full.Verify(hs, Proof{Targets: tg, Proof: pf}, rem)
+	case 3:
+		w.part.VerifyPartialProof(tg, hs, pf, rem)
+	}
+	verifReach("C04.forest")
+}
